@@ -121,6 +121,43 @@ def check_C18(run):
     return run.finish(rule="TLC enumerates every single-argument corruption of every routine's decision table (SluScreen); each is applied to an otherwise valid call in all four types", exhaustive=True)
 
 
+SAN_ENV = {"ASAN_OPTIONS": "exitcode=96:detect_leaks=0:abort_on_error=0:allocator_may_return_null=1", "UBSAN_OPTIONS": "halt_on_error=1:exitcode=96:print_stacktrace=1"}
+
+
+def tlc_lifecycles(run):
+    objs, st, out = vlib.tlc_generate(run.prop + "_life", "SluLife.tla", "SluLife.cfg", heap="4g")
+    run.mc.append({"name": "SluLife", "module": "SluLife.tla", "cfg": "SluLife.cfg", "states": st["generated"], "distinct": st["distinct"], "depth": st["depth"], "wall_s": 0, "ok": True, "coverage": {}})
+    return [o["life"] for o in objs]
+
+
+def check_C19(run):
+    lives = tlc_lifecycles(run)
+    g = Gen(run.seed * 1000 + 19)
+    g.r.shuffle(lives)
+    plan = {"d": 420, "z": 120, "s": 60, "c": 60} if run.tier == "quick" else {"d": 6000, "z": 3000, "s": 1500, "c": 1500}
+    scen = {ty: [F.lifecycle_scenario(g, "C19-life-%05d-%s" % (i, ty), ty, lives[(i * 7 + k) % len(lives)]) for i in range(cnt)] for k, (ty, cnt) in enumerate(plan.items())}
+    pref = ["C19."]
+    # ledger discipline (V0: ledger, red zones, poisoned fresh blocks)
+    run.conform("life", scen, pref, tv_env={"MODE": "light"})
+    # the same lifecycles and the factor / storage families under ASan + UBSan (observer)
+    types = {"d": 1.0, "z": 0.4, "s": 0.2, "c": 0.2}
+    g2 = Gen(run.seed * 1000 + 191)
+    fam2 = merge(F.fam_gssv(g2, "C19", sizes(run, 300, 3000), types), F.fam_gstrf(g2, "C19", sizes(run, 150, 1500), types),
+                 F.fam_singular(g2, "C19", sizes(run, 100, 1000), types), F.fam_gssvx(g2, "C19", sizes(run, 200, 2000), types),
+                 F.fam_storage(g2, "C19", sizes(run, 40, 300), types), F.fam_storage(g2, "C19", sizes(run, 40, 300), types, fn="gsisx"))
+    run.conform("fam_v0", fam2, pref, tv_env={"MODE": "light"})
+    run.observers["asan_ubsan"] = {"scenarios": 0}
+    half = {ty: lst[: max(1, len(lst) // (2 if run.tier == "quick" else 1))] for ty, lst in scen.items()}
+    res = run.conform("life_asan", half, pref, variant="v2", harness_env=SAN_ENV, tv_env={"MODE": "light"})
+    res2 = run.conform("fam_asan", fam2, pref, variant="v2", harness_env=SAN_ENV, tv_env={"MODE": "light"})
+    run.observers["asan_ubsan"]["scenarios"] = sum(len(r["scen"]) for r in res + res2)
+    if run.tier != "quick":
+        vg = {"d": scen["d"][:200], "z": scen["z"][:100]}
+        run.conform("life_valgrind", vg, pref, wrapper=["valgrind", "-q", "--error-exitcode=96", "--trace-children=yes", "--child-silent-after-fork=no"], timeout=120, tv_env={"MODE": "light"}, nchunks=16)
+        run.observers["valgrind"] = {"scenarios": 300}
+    return run.finish(rule="TLC-generated API lifecycles (SluLife, length <= 4: fresh / reuse / solve / query / short workspace / failed growth / singular / rejected / destroy) plus the factor, singular, expert-driver and storage families; each under the ledger build and under ASan+UBSan")
+
+
 def check_C07(run):
     mc_mem(run, thorough_too=False)
     g = Gen(run.seed * 1000 + 7)
